@@ -230,15 +230,14 @@ func H_wordBreaks(n, k int) {
 	}
 }
 
-var c16BrAlphabet = []string{"a", "<", "&", "\n", "\r", " "}
-
-// H_newlineToBr: changeNewlineToBr (regexp, concrete strings: every string of length n over
-// {a,<,&,LF,CR,space}): removing <br> gives the escaped text without its line breaks, and the
-// number of <br> equals the number of line breaks (CRLF counts once).
+// H_newlineToBr: changeNewlineToBr on every string of n bytes other than NUL (the regexp replacement
+// is summarised by a Go model of the pattern, validated natively): removing <br> gives the escaped
+// text without its line breaks, and the number of <br> equals the number of line breaks (CRLF
+// counts once).
 func H_newlineToBr(n int) {
-	s := ""
-	for i := 0; i < n; i++ {
-		s += c16BrAlphabet[verifChoose(len(c16BrAlphabet))]
+	s := verifString(n)
+	for i := 0; i < len(s); i++ {
+		verifAssume(s[i] != 0)
 	}
 	out, failed := c16Apply("changeNewlineToBr", data.String(s))
 	verifObserve("s", s)
